@@ -259,14 +259,15 @@ Example C01_h1_nonvacuous :
           bs "GET /next HTTP/1.1").
 Proof. vm_compute. reflexivity. Qed.
 
-(* the end-to-end hypotheses are met by a whole API-level request with hostile values *)
+(* the end-to-end premises are met by a whole API-level request with hostile values *)
 Example C01_end_to_end_nonvacuous :
   let a := mkA (bs "POST") (bs "http://h:80/api") (bs "/u/{id}") [(bs "id", bs "../x y")] [] []
                [(bs "q", [bs "a&b"])] [(bs "X-A", [bs " v: 1 "])] [(bs "X-B", [bs "c"])]
                [(bs "sid", bs "a b")] [] BKnown (bs "hello") (bs "text/plain; charset=utf-8") true in
-  exists w, render_h1 a [] = Sent w /\
-    no_framing_keys (a_rhdr a) = true /\ no_framing_keys (a_chdr a) = true /\
-    observe_h1 (w ++ bs "GET /2 HTTP/1.1") =
-      match described a with Some v => Some (v, bs "GET /2 HTTP/1.1") | None => None end /\
-    option_map v_target (described a) = Some (bs "/api/u/..%2Fx%20y?q=a%26b").
-Proof. eexists. vm_compute. repeat split. Qed.
+  let tail := bs "GET /2 HTTP/1.1" in
+  (match render_h1 a [] with Sent w => observe_h1 (w ++ tail) | _ => None end) =
+  (match described a with Some v => Some (v, tail) | None => None end) /\
+  (match render_h1 a [] with Sent _ => true | _ => false end) = true /\
+  no_framing_keys (a_rhdr a) = true /\ no_framing_keys (a_chdr a) = true /\
+  option_map v_target (described a) = Some (bs "/api/u/..%2Fx%20y?q=a%26b").
+Proof. vm_compute. repeat split. Qed.
